@@ -8,7 +8,7 @@ func init() {
 		Title: "Subscription teardown is safe under every interleaving",
 		Kernels: []Kernel{
 			{Name: "teardown-all-interleavings", Pkg: ".", Files: files, Entry: "VerifTeardown", Mode: "all", Race: true,
-				Quick: map[string]int{"maxsteps": 1, "maxevents": 1, "ticks": 0, "slim": 1}, Thorough: map[string]int{"maxsteps": 2, "maxevents": 1, "ticks": 0, "slim": 1, "budget_s": 10000},
+				Quick: map[string]int{"maxsteps": 1, "maxevents": 1, "ticks": 0, "slim": 1}, Thorough: map[string]int{"maxsteps": 2, "maxevents": 1, "ticks": 0, "slim": 1, "pin_first": 0, "budget_s": 10000},
 				Reach: []string{"handler returned"}, Functions: fns},
 			{Name: "heartbeat-vs-listener", Pkg: ".", Files: files, Entry: "VerifTeardown", Mode: "all", Race: true,
 				Quick:    map[string]int{"maxsteps": 1, "maxevents": 1, "ticks": 1, "pin_client": 0, "pin_upend": 3, "pin_events": 1},
